@@ -921,6 +921,11 @@ pub fn case_pairs(bytes: &[u8], ctx: &mut Ctx) -> CaseResult {
     let mut ms = s.sub(24);
     let mut labels = vec![];
     let (mut l1, _) = gen_list(&mut s, &env, false, &mut labels);
+    for lb in &labels {
+        if lb.starts_with("ff-like") {
+            ctx.label(lb.clone());
+        }
+    }
     ctx.ran_dry(s.ran_dry() || ms.ran_dry());
     let mname = MUTATIONS[m];
     // some mutations first need a suitable pair of adjacent conditions: they
